@@ -65,7 +65,7 @@ func domainCheck(v any, path string) string {
 	return fmt.Sprintf("%s: value of type %T is not a plain JSON value", path, v)
 }
 
-var c18Panel = []string{"@", "type(@)", "@ == @", "[@][0]", "{k: @}.k", "to_array(@)", "length(to_array(@))", "@[0]", "@[-1]", "@[*]", "@[]", "@.*", "keys(@)", "values(@)", "sort(@)", "sort_by(@, &to_string(@))", "reverse(@)", "length(@)", "to_number(@)", "to_string(@)", "@ + `1`", "@ * `2`", "-@", "abs(@)", "@ < `2`", "@ == `1`", "@ == `[]`", "@ == `{}`", "!@", "@ && 'T'", "@ || 'F'", "[?@]", "[?@ == `1`]", "sum(@)", "max(@)", "min(@)", "avg(@)", "join(',', @)", "@[0].a", "@.a", "@[*].a", "@[?a].a", "contains(@, `1`)", "not_null(@, 'N')", "merge(@, `{\"zz\":1}`)", "@[::2]", "map(&type(@), @)", "zip(@, @)", "@[0] == @[1]", "group_by(@, &type(@))", "items(@)", "from_items(items(@))", "[@, @][]", "ceil(@)", "floor(@)", "find_first(@, 'a')", "pad_left(@, `3`)", "split(@, 'a')", "let $v = @ in [$v, $v]",
+var c18Panel = []string{"[0]", "[-1]", "[1]", "[0:1]", "[*]", "[]", "[?@]", "*", "a", "@", "type(@)", "@ == @", "[@][0]", "{k: @}.k", "to_array(@)", "length(to_array(@))", "@[0]", "@[-1]", "@[*]", "@[]", "@.*", "keys(@)", "values(@)", "sort(@)", "sort_by(@, &to_string(@))", "reverse(@)", "length(@)", "to_number(@)", "to_string(@)", "@ + `1`", "@ * `2`", "-@", "abs(@)", "@ < `2`", "@ == `1`", "@ == `[]`", "@ == `{}`", "!@", "@ && 'T'", "@ || 'F'", "[?@]", "[?@ == `1`]", "sum(@)", "max(@)", "min(@)", "avg(@)", "join(',', @)", "@[0].a", "@.a", "@[*].a", "@[?a].a", "contains(@, `1`)", "not_null(@, 'N')", "merge(@, `{\"zz\":1}`)", "@[::2]", "map(&type(@), @)", "zip(@, @)", "@[0] == @[1]", "group_by(@, &type(@))", "items(@)", "from_items(items(@))", "[@, @][]", "ceil(@)", "floor(@)", "find_first(@, 'a')", "pad_left(@, `3`)", "split(@, 'a')", "let $v = @ in [$v, $v]",
 	"a.to_array(@)", "a.type(@)", "a[0].not_null(@, 'x')", "(a | to_string(@))", "a.length(to_array(@))", "a.b.type(@)", "[0].type(@)", "a.[@]", "a.{k: @}", "a | [@]", "a.not_null(@, `1`)", "@.type(@)", "a.b | type(@)", "[a.type(@), type(a)]"}
 
 func c18Run(c *Ctx, idx int) {
